@@ -4,19 +4,10 @@ C11 — zero swaps exchange the crossing frames and are reversible.
 Theorems about the model `Infretis.ZeroSwap.retisSwapZero` / `quantisSwapZero`
 (Model/ZeroSwap.lean mirrors tis.py:798-1010 and 1064-1324 branch by branch).
 -/
-import Infretis.Lemmas.ZeroSwap
+import Infretis.Lemmas.ZeroSwapTwice
 
 namespace Infretis.C11
 open Infretis.ZeroSwap Infretis.Engine
-
-theorem flip_flip (c : Cfg) : c.flip.flip = c := by
-  cases c; simp [Cfg.flip]
-
-/-- `EngineBase.propagate` keeps the physical phase point of the shooting point: the stored
-    velocities are reversed exactly when the flag changes -/
-theorem phys_start (sys : Frame) (rev : Bool) (o : Int) (v : Option Int) :
-    ({ op := o, cfg := startCfg sys rev, vr := rev, vpot := v } : Frame).phys = sys.phys := by
-  cases rev <;> cases hv : sys.vr <;> simp [Frame.phys, startCfg, hv, flip_flip]
 
 theorem propagate_head {m : Nat} {l r : Int} {sys : Frame} {rev : Bool} {scr : Script}
     {tmp : List Frame} {s : Bool} (h : propagate m l r sys rev scr = some (tmp, s))
@@ -286,6 +277,154 @@ theorem quantis_exponent (beta0 beta1 : Rat) (v0r0 v0r1 v1r1 v1r0 : Int) :
   rw [Rat.mul_comm beta0, Rat.mul_comm beta1]
   simp [Rat.intCast_sub]
 
+/-! ### swapping twice -/
+
+theorem det_unfold {st : Cfg → Cfg} {opf : Cfg → Int} {vf : Cfg → Option Int} {n : Nat} {e0 e1 : Ens}
+    {old0 old1 : List Frame} {xi : Rat} {r : Result}
+    (h : retisSwapZeroDet st opf vf n e0 e1 old0 old1 xi = .ok r) (ha : r.accept = true) :
+    ∃ first1 last0, old1.head? = some first1 ∧ old0.getLast? = some last0 ∧
+      retisSwapZero e0 e1 old0 old1 (detScript st opf vf n (startCfg first1 true))
+        (detScript st opf vf n (startCfg last0 false)) xi = .ok r := by
+  unfold retisSwapZeroDet at h
+  cases h1 : old1.head? with
+  | none =>
+    simp only [h1] at h
+    obtain ⟨_, _, _, c, d, post1, _, _, _, _, _, hold1, _⟩ := accepted_shape h ha
+    rw [hold1] at h1; simp at h1
+  | some first1 =>
+    cases h0 : old0.getLast? with
+    | none =>
+      simp only [h1, h0] at h
+      obtain ⟨pre0, a, b, _, _, _, _, _, _, _, hold0, _⟩ := accepted_shape h ha
+      rw [hold0] at h0; simp at h0
+    | some last0 =>
+      simp only [h1, h0] at h
+      exact ⟨first1, last0, rfl, rfl, h⟩
+
+theorem secondlast_split {a b f l : Frame} {pre mid : List Frame}
+    (h : pre ++ [a, b] = f :: mid ++ [l]) : pre ++ [a] = f :: mid ∧ b = l := by
+  have h' : (pre ++ [a]) ++ [b] = (f :: mid) ++ [l] := by simpa using h
+  have hh := List.append_inj' h' rfl
+  exact ⟨hh.1, by simpa using hh.2⟩
+
+/-- **swapping twice restores the paths.**  Let both engines be one deterministic engine `D` that is
+    time-reversible (`D.step (flip (D.step c)) = flip c`) with an order parameter that does not depend on
+    the sign of the velocities, running at least `maxlen1 - 2` steps per call; let the old paths be valid
+    members of their ensembles and trajectories of `D` (whatever their `vel_rev` flags), and
+    `maxlen0 ≤ maxlen1`.  If the swap is accepted and the swap of the two new paths is accepted again,
+    the result has the order-value sequences — and indeed the phase points — of the original paths. -/
+theorem swap_twice_identity (D : Dyn) (hrev : D.Reversible) (hop : D.OpEven) (n : Nat)
+    {e0 e1 : Ens} {old0 old1 : List Frame} {xi1 xi2 : Rat} {r1 r2 : Result}
+    (h1 : retisSwapZeroDet D.step D.opf D.vf n e0 e1 old0 old1 xi1 = .ok r1) (ha1 : r1.accept = true)
+    (h2 : retisSwapZeroDet D.step D.opf D.vf n e0 e1 r1.path0 r1.path1 xi2 = .ok r2) (ha2 : r2.accept = true)
+    (hm : e0.maxlen ≤ e1.maxlen) (hn : e1.maxlen ≤ n + 2)
+    (hv0 : ValidMinus e0 old0) (hv1 : ValidPlus e1 old1) (ht0 : IsTraj D old0) (ht1 : IsTraj D old1) :
+    ops r2.path0 = ops old0 ∧ ops r2.path1 = ops old1 ∧
+      r2.path0.map Frame.phys = old0.map Frame.phys ∧ r2.path1.map Frame.phys = old1.map Frame.phys := by
+  -- first swap
+  obtain ⟨_, _, _, _, h1'⟩ := det_unfold h1 ha1
+  obtain ⟨pre0, a, b, c, d, post1, tmp0, s0, tmp1, s1, hold0, hold1, hprop0, hprop1, hp0, hp1, h20, _, h21, _, _, _⟩ :=
+    accepted_shape h1' ha1
+  obtain ⟨t0, ht0'⟩ := propagate_head hprop0 (by omega)
+  obtain ⟨t1, ht1'⟩ := propagate_head hprop1 (by omega)
+  -- second swap
+  obtain ⟨first1', last0', hf1, hl0, h2'⟩ := det_unfold h2 ha2
+  obtain ⟨pre0', a', b', c', d', post1', tmp0', s0', tmp1', s1', hold0', hold1', hprop0', hprop1', hp0', hp1',
+    _, hl0', _, hl1', _, _⟩ := accepted_shape h2' ha2
+  -- identify the frames of the second swap
+  have hc' : c' = a ∧ d'.op = b.op ∧ d'.phys = b.phys := by
+    rw [hp1, ht1'] at hold1'
+    simp only [List.cons.injEq] at hold1'
+    refine ⟨hold1'.1.symm, ?_, ?_⟩
+    · rw [← hold1'.2.1]
+    · rw [← hold1'.2.1]; exact phys_start b false _ _
+  have hb' : a'.op = c.op ∧ a'.phys = c.phys ∧ b' = d := by
+    rw [hp0, ht0'] at hold0'
+    simp only [List.reverse_cons, List.append_assoc, List.singleton_append] at hold0'
+    have := (List.append_inj' hold0' rfl).2
+    simp only [List.cons.injEq, and_true] at this
+    refine ⟨?_, ?_, this.2.symm⟩
+    · rw [← this.1]
+    · rw [← this.1]; exact phys_start c true _ _
+  obtain ⟨hc'1, hd'op, hd'phys⟩ := hc'
+  obtain ⟨ha'op, ha'phys, hb'd⟩ := hb'
+  subst hc'1 hb'd
+  have hfirst1' : first1' = c' := by
+    rw [hold1'] at hf1; simpa using hf1.symm
+  have hlast0' : last0' = b' := by
+    rw [hold0'] at hl0; simpa using hl0.symm
+  subst hfirst1' hlast0'
+  -- the old paths as members and trajectories
+  obtain ⟨f0, mid0, l0, ho0, hne0, hf0, hmid0, _, hlen0⟩ := hv0
+  obtain ⟨f1, mid1, l1, ho1, hne1, _, hmid1, hcl1, hlen1⟩ := hv1
+  obtain ⟨hsp0, _⟩ := secondlast_split (hold0.symm.trans ho0)
+  have hsp1 : last0' :: post1 = mid1 ++ [l1] := by
+    have := hold1.symm.trans ho1
+    simp only [List.cons_append, List.cons.injEq] at this
+    exact this.2
+  -- backward call of the second swap retraces old [0-]
+  have hback := propagate_retrace D Cfg.flip true (fun c => hop c) (fun c => by simp [ZeroSwap.flip_flip])
+    (lst := pre0.reverse) (lpre := mid0.reverse) (lx := f0) hprop0' (by omega) (by omega)
+    (by
+      have := congrArg List.length hold0
+      simp at this ⊢; omega)
+    (startCfg_true first1')
+    (by
+      have hc : Consec (fun f g => g.phys = D.step f.phys) (pre0 ++ [first1']) := by
+        have := ht0.2; rw [hold0] at this
+        have e : pre0 ++ [first1', b] = (pre0 ++ [first1']) ++ [b] := by simp
+        rw [e] at this; exact this.prefix
+      have := consec_reverse hc
+      simp only [List.reverse_append, List.reverse_cons, List.reverse_nil, List.nil_append, List.cons_append] at this
+      refine Consec.imp ?_ this
+      intro u w huw
+      show D.step u.phys.flip = w.phys.flip
+      rw [huw]; exact hrev w.phys)
+    (by
+      intro f hf
+      apply ht0.1; rw [hold0]; simp at hf ⊢; exact Or.inl hf)
+    (by
+      have := congrArg List.reverse hsp0
+      simpa using this)
+    (by intro g hg; exact hmid0 g (by simpa using hg))
+    (by
+      rcases hf0 with h | ⟨_, h⟩
+      · exact Or.inr h
+      · exact Or.inl h)
+  -- forward call of the second swap retraces old [0+]
+  have hforw := propagate_retrace D id false (fun _ => rfl) (fun c => by simp)
+    (lst := post1) (lpre := mid1) (lx := l1) hprop1' (by omega) (by omega)
+    (by
+      have := congrArg List.length hold1
+      simp at this ⊢; omega)
+    (startCfg_false last0')
+    (by
+      have := ht1.2; rw [hold1] at this
+      refine Consec.imp ?_ this.tail
+      intro u w huw
+      simp only [id] at huw ⊢
+      exact huw.symm)
+    (by
+      intro f hf
+      apply ht1.1; rw [hold1]; simp [hf])
+    hsp1 hmid1 hcl1
+  obtain ⟨hbp, hbo⟩ := hback
+  obtain ⟨hfp, hfo⟩ := hforw
+  have hb_eq : b = l0 := (secondlast_split (hold0.symm.trans ho0)).2
+  refine ⟨?_, ?_, ?_, ?_⟩
+  · rw [hp0', hold0]
+    simp only [ops, List.map_append, List.map_reverse, List.map_cons, List.map_nil] at hbo ⊢
+    rw [hbo, hd'op]; simp
+  · rw [hp1', hold1]
+    simp only [ops, List.map_cons] at hfo ⊢
+    rw [hfo, ha'op]
+  · rw [hp0', hold0]
+    simp only [List.map_append, List.map_reverse, List.map_cons, List.map_nil] at hbp ⊢
+    rw [hbp, hd'phys]; simp
+  · rw [hp1', hold1]
+    simp only [List.map_cons] at hfp ⊢
+    rw [hfp, ha'phys]
+
 /-! ### non-vacuity: the hypotheses are met by concrete, non-trivial swaps -/
 namespace Ex
 def fr (o : Int) (x : Int) : Frame := { op := o, cfg := ⟨x, 1⟩, vr := false, vpot := some 0 }
@@ -323,14 +462,58 @@ example : (Ex.e0m.i0 ≤ Ex.e0m.i1 ∧ Ex.e0m.i0 ≤ Ex.e0m.i2) ∧ (Ex.e0m.scL 
     Ex.old0L.getLast? = some (Ex.fr (-4) 102) ∧ (Ex.fr (-4) 102).op ≤ Ex.e0m.i0 :=
   ⟨by decide, by decide, rfl, by decide⟩
 
-/-- QuanTIS: accepted with accept_all; with p = 1/4 the draw ξ = 1/4 is accepted and ξ = 1/2 gives QEA -/
-example : ∃ r, quantisSwapZero Ex.e0 Ex.e1 Ex.old0 Ex.old1 Ex.scA Ex.scB Ex.bw Ex.fw true 1 1 (1/4) (1/4) = .ok r ∧
-    r.accept = true ∧ r.expArg = some (-2) := ⟨_, rfl, rfl, by decide⟩
+/-- QuanTIS: accepted with accept_all; with (ξ, p) = (0, 1) it is accepted and with (ξ, p) = (1, 0) the status is QEA -/
+example : ∃ r, quantisSwapZero Ex.e0 Ex.e1 Ex.old0 Ex.old1 Ex.scA Ex.scB Ex.bw Ex.fw true 1 1 0 1 = .ok r ∧
+    r.accept = true ∧ r.draws = 1 := ⟨_, rfl, rfl, rfl⟩
 
-example : ∃ r, quantisSwapZero Ex.e0 Ex.e1 Ex.old0 Ex.old1 Ex.scA Ex.scB Ex.bw Ex.fw false 1 1 (1/4) (1/4) = .ok r ∧
-    r.accept = true := ⟨_, rfl, rfl⟩
+example : (quantisSwapZero Ex.e0 Ex.e1 Ex.old0 Ex.old1 Ex.scA Ex.scB Ex.bw Ex.fw false 1 1 0 1).toOption.map
+    (fun r => (r.accept, r.status)) = some (true, .ACC) := by decide
 
-example : ∃ r, quantisSwapZero Ex.e0 Ex.e1 Ex.old0 Ex.old1 Ex.scA Ex.scB Ex.bw Ex.fw false 1 1 (1/2) (1/4) = .ok r ∧
-    r.accept = false ∧ r.status = .QEA := ⟨_, rfl, rfl, rfl⟩
+example : (quantisSwapZero Ex.e0 Ex.e1 Ex.old0 Ex.old1 Ex.scA Ex.scB Ex.bw Ex.fw false 1 1 1 0).toOption.map
+    (fun r => (r.accept, r.status)) = some (false, .QEA) := by decide
+
+/-! ### non-vacuity of `swap_twice_identity`: the integer leap-frog engine in a double well -/
+
+/-- position-Verlet with an integer force is exactly time-reversible -/
+theorem dw_reversible (a k : Int) : ∀ c : Cfg, dwStep a k (dwStep a k c).flip = c.flip := by
+  intro c
+  cases c with
+  | mk x v =>
+    simp only [dwStep, Cfg.flip]
+    have e : x + v + (v + dwForce a k (x + v)) + -(v + dwForce a k (x + v)) = x + v := by omega
+    rw [e]
+    congr 1 <;> omega
+
+def dwDyn (a k : Int) : Dyn := { step := dwStep a k, opf := (·.x), vf := fun _ => some 0 }
+
+theorem dwDyn_reversible (a k : Int) : (dwDyn a k).Reversible := dw_reversible a k
+theorem dwDyn_opEven (a k : Int) : (dwDyn a k).OpEven := fun _ => rfl
+
+namespace ExDet
+def fr (x v : Int) (vr : Bool) : Frame := { op := x, cfg := ⟨x, v⟩, vr := vr, vpot := some 0 }
+def e0 : Ens := { i0 := -50, i1 := -7, i2 := -7, maxlen := 16, scL := false, scR := true, wf := false, cap := none }
+def e1 : Ens := { i0 := -7, i1 := -7, i2 := -2, maxlen := 16, scL := true, scR := false, wf := false, cap := none }
+/-- a [0-] trajectory of the double well (a = 64, k = 64): x = -4, -10, -10, -4, stored with mixed flags -/
+def old0 : List Frame := [fr (-4) 2 true, fr (-10) (-4) false, fr (-10) 4 false, fr (-4) 2 false]
+/-- a [0+] trajectory: x = -10, -6, -2, 0 -/
+def old1 : List Frame := [fr (-10) 1 false, fr (-6) (-3) true, fr (-2) (-1) true, fr 0 (-1) true]
+end ExDet
+
+/-- every hypothesis of `swap_twice_identity` holds for this pair: both swaps are accepted, the old
+    paths are members and trajectories of the reversible engine -/
+example : ∃ r1 r2,
+    retisSwapZeroDet (dwDyn 64 64).step (dwDyn 64 64).opf (dwDyn 64 64).vf 18 ExDet.e0 ExDet.e1 ExDet.old0 ExDet.old1 0 = .ok r1 ∧
+    r1.accept = true ∧ ops r1.path0 = [-4, -10, -6] ∧ ops r1.path1 = [-10, -4, -1] ∧
+    retisSwapZeroDet (dwDyn 64 64).step (dwDyn 64 64).opf (dwDyn 64 64).vf 18 ExDet.e0 ExDet.e1 r1.path0 r1.path1 0 = .ok r2 ∧
+    r2.accept = true ∧ ExDet.e0.maxlen ≤ ExDet.e1.maxlen ∧ ExDet.e1.maxlen ≤ 18 + 2 ∧
+    ValidMinus ExDet.e0 ExDet.old0 ∧ ValidPlus ExDet.e1 ExDet.old1 ∧
+    IsTraj (dwDyn 64 64) ExDet.old0 ∧ IsTraj (dwDyn 64 64) ExDet.old1 := by
+  refine ⟨_, _, rfl, rfl, rfl, rfl, rfl, rfl, by decide, by decide, ?_, ?_, ?_, ?_⟩
+  · exact ⟨ExDet.fr (-4) 2 true, [ExDet.fr (-10) (-4) false, ExDet.fr (-10) 4 false], ExDet.fr (-4) 2 false,
+      rfl, by simp, Or.inl (by decide), by decide, by decide, by decide⟩
+  · exact ⟨ExDet.fr (-10) 1 false, [ExDet.fr (-6) (-3) true, ExDet.fr (-2) (-1) true], ExDet.fr 0 (-1) true,
+      rfl, by simp, by decide, by decide, by decide, by decide⟩
+  · exact ⟨by decide, by decide, by decide, by decide, trivial⟩
+  · exact ⟨by decide, by decide, by decide, by decide, trivial⟩
 
 end Infretis.C11
